@@ -393,8 +393,8 @@ class Check:
             for f in os.listdir(rdir):
                 if f.startswith(tier + "_"): os.remove(os.path.join(rdir, f))
 
-    def violation(self, what, replay, found_input=True):
-        if len(self.violations) >= 20:
+    def violation(self, what, replay, found_input=True, force=False):
+        if len(self.violations) >= 20 and not force:
             self.violations.append(None); return
         os.makedirs(os.path.join(OUT, "replays", self.pid), exist_ok=True)
         self._replay_n += 1
@@ -424,7 +424,7 @@ class Check:
         real = [v for v in self.violations if v]
         if proofs["failures"]:
             for fmsg in proofs["failures"]:
-                self.violation("proof obligation no longer checks: " + fmsg, {"theorem_or_correspondence": fmsg}, found_input=False)
+                self.violation("proof obligation no longer checks: " + fmsg, {"theorem_or_correspondence": fmsg}, found_input=False, force=True)
             real = [v for v in self.violations if v]
         ev = {"property_id": self.pid, "tier": self.tier, "seed": self.seed, "level": level,
               "coverage": cov, "assumptions": self.assumptions, "wall_s": round(time.time() - self.t0, 2),
@@ -437,6 +437,7 @@ class Check:
             # violations with a failing input first
             real.sort(key=lambda v: not v[2])
             logs = ["violation: " + what for what, path, found in real[:10]]
+            logs += ["violation: " + what for what, path, found in real[10:] if what.startswith("proof obligation")]   # never dropped from the log
             what, path, found = real[0]
             lines.append("VIOLATION property=%s replay=%s%s" % (self.pid, path, "" if found else " no-failing-input-found"))
             if not found and getattr(self, "defer_if_no_input", False):
